@@ -10,6 +10,7 @@ import (
 	_ "github.com/crossplane/crossplane/verifsim/props/c03"
 	_ "github.com/crossplane/crossplane/verifsim/props/c05"
 	_ "github.com/crossplane/crossplane/verifsim/props/c06"
+	_ "github.com/crossplane/crossplane/verifsim/props/c07"
 	_ "github.com/crossplane/crossplane/verifsim/props/c08"
 	_ "github.com/crossplane/crossplane/verifsim/props/c09"
 	_ "github.com/crossplane/crossplane/verifsim/props/c12"
